@@ -71,6 +71,12 @@ func runC13(c *Ctx) {
 			exrevs = append(exrevs, kvAny{fmt.Sprintf("AREV%d", i), int64(c.Rng.Intn(5000))})
 			data = append(data, kvAny{fmt.Sprintf("k%d%s", i, []string{"", "Z", "a"}[c.Rng.Intn(3)]), []interface{}{"s", float64(i), map[string]interface{}{"z": 1.0, "a": "b", "m": nil}}[c.Rng.Intn(3)]})
 		}
+		// a revoke-all entry among the per-key ones, some of them older, some newer: the order in which
+		// revocations are entered is not content
+		if c.Rng.Intn(2) == 0 {
+			revs = append(revs, kvAny{"*", int64(1500)})
+			exrevs = append(exrevs, kvAny{"*", int64(2500)})
+		}
 		acctKp := kr.by["account"]
 		build := func() (*jwt.AccountClaims, *jwt.GenericClaims) {
 			ac := jwt.NewAccountClaims(acctKp.pub)
